@@ -436,7 +436,82 @@ def run_lb(program):
     return trace
 
 
-FAMILIES = {'decl': run_decl, 'reg': run_reg, 'cmp': run_cmp, 'call': run_call, 'odd': run_odd, 'lb': run_lb}
+
+# ---------------------------------------------------------------------------
+# family 'snap': generation snapshot of VerifyingAdapterRegistry over chains of 2..4 registries
+# ---------------------------------------------------------------------------
+
+SNAP_MUT = ['register', 'unregister', 'subscribe', 'unsubscribe', 'rebase']
+
+
+def run_snap(program):
+    """program = [L, k, m, warm]: chain r0 <- r1 <- ... <- r(L-1) of VerifyingAdapterRegistry (r0 in front); every entry point of r0 is
+    observed (if warm), registry k (1 <= k < L) is mutated with SNAP_MUT[m], every entry point of r0 is observed again.  The trace also
+    carries the observation of a chain built afterwards with the same registrations and no earlier lookups."""
+    from zope.interface import Interface, implementer
+    from zope.interface.adapter import VerifyingAdapterRegistry
+    from zope.interface.interface import InterfaceClass
+    L, k, m, warm = program
+    if not (1 <= k < L):
+        return None
+    IR = InterfaceClass('IR', (Interface,), __module__='snap')
+    IP = InterfaceClass('IP', (Interface,), __module__='snap')
+
+    @implementer(IR)
+    class Ob:
+        pass
+    ob = Ob()
+
+    def build(with_mut):
+        regs = []
+        for i in range(L):
+            regs.insert(0, VerifyingAdapterRegistry(tuple(regs[:1])))
+        # regs[0] is the front registry, regs[i] its i-th ancestor
+        pre = SNAP_MUT[m] in ('unregister', 'unsubscribe')
+        if pre:
+            regs[k].register([IR], IP, '', 'pre-adapter')
+            regs[k].subscribe([IR], IP, 'pre-sub')
+        return regs
+
+    def mutate(regs):
+        mm = SNAP_MUT[m]
+        if mm == 'register':
+            regs[k].register([IR], IP, '', 'new-adapter')
+        elif mm == 'unregister':
+            regs[k].unregister([IR], IP, '')
+        elif mm == 'subscribe':
+            regs[k].subscribe([IR], IP, 'new-sub')
+        elif mm == 'unsubscribe':
+            regs[k].unsubscribe([IR], IP, 'pre-sub')
+        else:
+            extra = VerifyingAdapterRegistry()
+            extra.register([IR], IP, '', 'from-new-base')
+            regs[k].__bases__ = regs[k].__bases__ + (extra,)
+            regs.append(extra)
+
+    def obs(r):
+        out = []
+        for f in (lambda: r.lookup((IR,), IP), lambda: r.lookup1(IR, IP), lambda: r.queryAdapter(ob, IP, default='dflt'),
+                  lambda: r.adapter_hook(IP, ob, '', 'dflt'), lambda: sorted(r.lookupAll((IR,), IP)), lambda: sorted(r.names((IR,), IP)),
+                  lambda: list(r.subscriptions((IR,), IP)), lambda: r.lookup((IR, IR), IP)):
+            try:
+                out.append(repr(f()))
+            except Exception as e:   # noqa
+                out.append(_exc(e))
+        return out
+    regs = build(True)
+    trace = {}
+    if warm:
+        trace['before'] = obs(regs[0])
+    mutate(regs)
+    trace['after'] = obs(regs[0])
+    ref = build(True)
+    mutate(ref)
+    trace['fresh'] = obs(ref[0])
+    trace['stale'] = trace['after'] != trace['fresh']
+    return trace
+
+FAMILIES = {'decl': run_decl, 'reg': run_reg, 'cmp': run_cmp, 'call': run_call, 'odd': run_odd, 'lb': run_lb, 'snap': run_snap}
 
 
 def execute(family, program):
